@@ -4,19 +4,21 @@
    code 2: P is evaluable on every stored pair (reference semantics Spec/Sem.v) and some drain
            did not return exactly the pairs on which P is true, in key order, with their values;
    code 1: the evaluator twin disagrees with FilterExec.Filter on some pair;
-   code 99: P is not evaluable on some pair / outside the twin (not in the property's domain). *)
+   code 99: P is not evaluable on some pair / outside the twin (not in the property's domain).
+   A second case kind, [Text], starts from the QUERY TEXT (Corr/C01Text.v: the whole pipeline of
+   Model/Pipeline.v against NewOptimizer(q).BuildPlan(store), same codes). *)
 From Coq Require Import List String ZArith Bool.
 Import ListNotations.
-From KV Require Import Base.Bytes Base.Flt Model.Ast Model.Value Model.Eval Spec.Sem Corr.EvalCommon.
+From KV Require Import Base.Bytes Base.Flt Model.Ast Model.Value Model.Eval Spec.Sem Corr.EvalCommon Corr.C01Text.
 
 Definition re_none (p t : bytes) : option bool := None.
 Definition sem_prim := sem prim_fops re_none.
 
-Record case := Case {
-  cexpr : expr;
-  cstore : list (bytes * bytes * obs);          (* pair and what Filter returned for it *)
-  cruns : list (list (bytes * bytes))           (* rows of each drain *)
-}.
+Inductive case :=
+  | Case (cexpr : expr)
+         (cstore : list (bytes * bytes * obs))          (* pair and what Filter returned for it *)
+         (cruns : list (list (bytes * bytes)))          (* rows of each drain *)
+  | Text (c : tcase).                                   (* from the query text: Corr/C01Text.v *)
 
 Definition pair_eqb (a b : bytes * bytes) : bool :=
   String.eqb (fst a) (fst b) && String.eqb (snd a) (snd b).
@@ -24,17 +26,24 @@ Definition pair_eqb (a b : bytes * bytes) : bool :=
 Definition is_sbool_true (s : option (sval prim_fops)) : bool :=
   match s with Some (SBool true) => true | _ => false end.
 
-Definition check_case (c : case) : nat :=
-  let pairs := map (fun r => fst r) (cstore c) in
-  let evaluable := forallb (fun kv => match sem_prim (fst kv) (snd kv) (cexpr c) with
+Definition check_tree (cexpr : expr) (cstore : list (bytes * bytes * obs))
+                      (cruns : list (list (bytes * bytes))) : nat :=
+  let pairs := map (fun r => fst r) cstore in
+  let evaluable := forallb (fun kv => match sem_prim (fst kv) (snd kv) cexpr with
                                       | Some (SBool _) => true | _ => false end) pairs in
-  let corr := check_eval (cexpr c) (cstore c) in
+  let corr := check_eval cexpr cstore in
   if evaluable then
-    let want := filter (fun kv => is_sbool_true (sem_prim (fst kv) (snd kv) (cexpr c))) pairs in
-    if forallb (fun run => list_eqb pair_eqb run want) (cruns c)
+    let want := filter (fun kv => is_sbool_true (sem_prim (fst kv) (snd kv) cexpr)) pairs in
+    if forallb (fun run => list_eqb pair_eqb run want) cruns
     then (if Nat.eqb corr 99 then 0 else corr)
     else 2
   else (if Nat.eqb corr 1 then 1 else if Nat.eqb corr 2 then 1 else 99).
+
+Definition check_case (c : case) : nat :=
+  match c with
+  | Case e st runs => check_tree e st runs
+  | Text t => check_text t
+  end.
 
 Fixpoint mism_from (i : nat) (cs : list case) : list (nat * nat) :=
   match cs with
